@@ -138,6 +138,8 @@ def build_case(base_viol: list[dict], linter: str, lang: str, main_lines: list[s
         if tl > n:
             return None
         txt = f"{c} thailint: ignore[{name}]" if sp != "bare" else f"{c} thailint: ignore"
+        if case.get("lead", "none") == "afterComment":
+            txt = {"py": "# pragma: no cover  ", "ts": "// eslint-disable-line  "}.get(lang, "// SAFETY: checked  ") + txt
         lines[tl - 1] = lines[tl - 1] + "  " + txt
         at = tl
     elif form == "nextLine":
@@ -335,7 +337,8 @@ def job(j: dict) -> dict:
         ig._CACHED_PARSER = None      # a fresh process per project (singleton keyed by root anyway)
         after = lint_all(root, names)
         out.append({"case": case, "d": d, "after": after})
-        single[(case["form"], case["spelling"], case["placement"])] = (lines, d, tline, after)
+        if case.get("lead", "none") == "none":
+            single[(case["form"], case["spelling"], case["placement"])] = (lines, d, tline, after)
     # the same project edited in place and linted again by the same process (one ignore parser, one set of
     # rule objects for the whole sequence): a directive's effect must follow the file's current text
     rootr = Path(j["root"]) / "reuse"
@@ -348,7 +351,7 @@ def job(j: dict) -> dict:
     from src.api import Linter as _Linter
     held = _Linter(project_root=str(rootr))
     inplace = [c for c in j["cases"] if c["form"] in ("sameLine", "nextLine", "block", "fileHeader")
-               and c.get("stack", "none") == "none"]
+               and c.get("stack", "none") == "none" and c.get("lead", "none") == "none"]
 
     def pick(form, placement, spelling):
         return [c for c in inplace if (c["form"], c["placement"], c["spelling"]) == (form, placement, spelling)]
@@ -427,6 +430,8 @@ def run(chk) -> None:
                        "clause": la, "culprit": v["linter"], "kind": kind}
                 if run_["case"].get("stack", "none") != "none":
                     key["stack"] = run_["case"]["stack"]
+                if run_["case"].get("lead", "none") != "none":
+                    key["lead"] = run_["case"]["lead"]
                 chk.reject(key,
                            {"case": case, "d": run_["d"], "d1": run_.get("d1"), "after": run_["after"], "v": v},
                            f"{la}: base {b[0]} ({b[2]}) {run_['case']['form']}/{run_['case']['spelling']}/"
